@@ -152,6 +152,50 @@ def _su_spec(cfg, i, path):
     return path.outcome == 'ret' and path.value == 'updated'
 
 
+# ------------------------------------------------------------------ after a mid-session commit nothing stays exempt from the optimistic check
+def _mc_configs(tier):
+    return [dict(how=h, attr_read=r) for h in ('created', 'get_for_update', 'select_for_update', 'plain') for r in (True, False)]
+
+
+def _mc_case(cfg, values):
+    M = model()
+
+    def setup(run): _reset()
+    def teardown(run):
+        try: orm.rollback()
+        except Exception: pass
+        _reset()
+
+    def call():
+        O = M.O
+        try:
+            with orm.db_session:
+                if cfg['how'] == 'created': o = O(a=1, w=0); orm.flush()
+                elif cfg['how'] == 'get_for_update': o = O.get_for_update(id=1)
+                elif cfg['how'] == 'select_for_update': o = O.select(lambda x: x.id == 1).for_update()[:][0]
+                else: o = O[1]
+                if cfg['attr_read']: seen = o.a
+                orm.commit()                                             # the transaction (and every lock of it) ends here; the session goes on
+                M.db.execute('update O set a = 100 where id = %d' % o.id)    # somebody else's committed change, as the database now holds it
+                o.a = 5                                                  # a write based on what this session saw before
+                orm.commit()
+            outcome = 'written'
+        except core.OptimisticCheckError:
+            outcome = 'refused'
+        finally:
+            with orm.db_session:
+                M.db.execute('update O set a = 1 where id = 1'); M.db.execute('delete from O where id > 1')
+        return outcome
+    return Case(call, {}, [], setup, teardown)
+
+
+def _mc_spec(cfg, i, path):
+    if path.outcome != 'ret': return False
+    # the value was read (or written at creation) before the foreign change: the stale write must be refused, whatever locked the object earlier
+    if cfg['attr_read'] or cfg['how'] == 'created': return path.value == 'refused'
+    return path.value in ('written', 'refused')
+
+
 CONTRACTS = [
     Contract('_construct_optimistic_criteria_', ['pony.orm.core:Entity._construct_optimistic_criteria_', 'pony.orm.core:Attribute.__get__', 'pony.orm.core:Attribute.__set__'],
              _cr_configs, _cr_case, [('criteria_are_exactly_the_attributes_read_before_written', _cr_spec)], level='bounded',
@@ -159,4 +203,7 @@ CONTRACTS = [
     Contract('_save_updated_', 'pony.orm.core:Entity._save_updated_', _su_configs, _su_case,
              [('criteria_iff_optimistic_and_not_locked_zero_rows_raises_runs_in_transaction', _su_spec)], level='bounded',
              bound='optimistic x for_update x read x rowcount', allowed_exc=(core.OptimisticCheckError,)),
+    Contract('stale_write_after_mid_session_commit', ['pony.orm.core:SessionCache.commit', 'pony.orm.core:Entity._save_updated_', 'pony.orm.core:Entity._construct_optimistic_criteria_'],
+             _mc_configs, _mc_case, [('locks_of_a_finished_transaction_do_not_exempt_from_the_check', _mc_spec)], level='bounded',
+             bound='object created / locked by get_for_update / select().for_update() / plainly read in the first transaction of a session; one foreign change after the commit'),
 ]
